@@ -66,6 +66,14 @@ class Builder:
         self.n_appends = 0
         self.n_loops = 0
         self.seps = set()
+        self.taint = {}  # local -> roles ('rep' / 'exp') of the loop variables it derives from
+        self.views = {}  # local -> comprehension over the input sequence
+        self.local_values = {}  # local -> expressions assigned to it
+        self.loop_renders_exp = {}  # id(loop node) -> an append inside it renders the exponent
+        self.append_exprs = []  # (statement, appended expression, roles)
+        self._loop_stack = []
+        self.append_states = {}  # id(append statement) -> abstract states reaching it
+        self._counter = None
         self._find_acc()
 
     def _find_acc(self):
@@ -108,6 +116,15 @@ class Builder:
             if len(targets) == 1 and isinstance(targets[0], ast.Name) and isinstance(value, ast.Constant) and isinstance(value.value, bool):
                 name = targets[0].id
                 return {s.set_bool(name, value.value) if s is not None else None for s in states}
+            # other locals: remember which loop variables they derive from (provenance), and filtered views of
+            # the input sequence
+            if len(targets) == 1 and isinstance(targets[0], ast.Name) and value is not None:
+                name = targets[0].id
+                if isinstance(value, (ast.GeneratorExp, ast.ListComp)):
+                    self.views[name] = value
+                else:
+                    self.taint[name] = self.taint.get(name, set()) | self._roles(value)
+                    self.local_values.setdefault(name, []).append(value)
             return states
         if isinstance(node, ast.AugAssign):
             if isinstance(node.target, ast.Name) and node.target.id == acc:
@@ -128,14 +145,59 @@ class Builder:
             return out
         if isinstance(node, ast.For):
             self.n_loops += 1
-            self._loop_vars = self._target_names(node.target)
-            seen = set(states)
+            it, target, counter = node.iter, node.target, None
+            if isinstance(it, ast.Call) and isinstance(it.func, ast.Name) and it.func.id == "enumerate" and len(it.args) == 1 and not it.keywords \
+                    and isinstance(target, ast.Tuple) and len(target.elts) == 2 and isinstance(target.elts[0], ast.Name):
+                # enumerate(): the index is tracked as "not the first iteration"
+                counter, target, it = target.elts[0].id, target.elts[1], it.args[0]
+            self._loop_vars = self._target_names(target)
+            self._counter = counter
+            self._loop_stack.append(node)
+            self.loop_renders_exp.setdefault(id(node), False)
+            # a filtered view of the input (generator / list comprehension that passes the items on unchanged)
+            view = self.views.get(it.id) if isinstance(it, ast.Name) else it if isinstance(it, (ast.GeneratorExp, ast.ListComp)) else None
+            filters = []
+            if view is not None:
+                g = view.generators
+                if len(g) != 1 or ast.dump(view.elt) != ast.dump(g[0].target).replace("Store()", "Load()") or self._target_names(g[0].target) != self._loop_vars[-len(self._target_names(g[0].target)):]:
+                    raise AnalysisError("string builder: the loop at line %d iterates a comprehension that does not pass the items on unchanged" % node.lineno)
+                filters = list(g[0].ifs)
+
+            def enter(sts, first):
+                out_ = set()
+                for s_ in sts:
+                    if s_ is None:
+                        out_.add(None)
+                        continue
+                    s_ = s_.with_(sign=ANY)
+                    if counter is not None:
+                        s_ = s_.set_bool(counter, not first)
+                    cands = [s_]
+                    for f in filters:
+                        cands = [s2 for c_ in cands for o, s2 in self.cond(f, c_) if o]
+                    out_ |= set(cands)
+                return out_
+
+            def leave(sts):
+                out_ = set()
+                for s_ in sts:
+                    if s_ is not None:
+                        s_ = s_.with_(sign=ANY)
+                        if counter is not None:
+                            d = dict(s_.bools)
+                            d.pop(counter, None)
+                            s_ = s_.with_(bools=tuple(d.items()))
+                    out_.add(s_)
+                return out_
+
+            seen = set(leave(states))
             frontier = set(states)
+            first = True
             # fixpoint: the body runs zero or more times; each iteration starts with an unknown sign
             for _ in range(64):
-                start = {s.with_(sign=ANY) if s is not None else None for s in frontier}
-                after = self.block(node.body, start)
-                after = {s.with_(sign=ANY) if s is not None else None for s in after}
+                start = enter(frontier, first)
+                first = False
+                after = leave(self.block(node.body, start))
                 new = after - seen
                 if not new:
                     break
@@ -143,7 +205,9 @@ class Builder:
                 frontier = new
             else:
                 raise AnalysisError("string builder: loop fixpoint not reached")
-            return {s.with_(sign=ANY) if s is not None else None for s in seen}
+            self._counter = None
+            self._loop_stack.pop()
+            return seen
         if isinstance(node, ast.Return):
             for s in states:
                 if s is not None:
@@ -181,6 +245,9 @@ class Builder:
                 c = ast.literal_eval(test.comparators[0])
             except Exception:
                 c = None
+            if isinstance(test.left, ast.Name) and isinstance(c, (int, float)) and test.left.id == self._counter and s.bool(self._counter) is not None:
+                outs = {o for o in self._sign_truth(POS if s.bool(self._counter) else "ZERO", test.ops[0], c)}
+                return [(o, s) for o in sorted(outs)]
             if isinstance(test.left, ast.Name) and isinstance(c, (int, float)) and self._is_exp(test.left.id):
                 op = test.ops[0]
                 res = []
@@ -241,17 +308,62 @@ class Builder:
             if e.value == "":
                 return "nothing"
             return "slash" if "/" in e.value else "sep"
-        names = {n.id for n in ast.walk(e) if isinstance(n, ast.Name)}
-        if any(self._is_rep(n) for n in names):
+        roles = self._roles(e)
+        if "rep" in roles:
             return "start"
-        if any(self._is_exp(n) for n in names):
+        if "exp" in roles or "uexp" in roles:
             return "suffix"
         return "other"
+
+    def _roles(self, e):
+        """Which loop variables (representation / exponent) an expression derives from, through locals."""
+        roles = set()
+
+        def rec(n, unsigned):
+            if isinstance(n, ast.Name):
+                if n.id == self._counter:
+                    return
+                if self._is_rep(n.id):
+                    roles.add("rep")
+                elif self._is_exp(n.id):
+                    roles.add("uexp" if unsigned else "exp")
+                else:
+                    t = self.taint.get(n.id, set())
+                    roles.update(("uexp" if (r == "exp" and unsigned) else r) for r in t)
+                return
+            if (isinstance(n, ast.Call) and isinstance(n.func, ast.Name) and n.func.id == "abs") or (isinstance(n, ast.UnaryOp) and isinstance(n.op, ast.USub)):
+                unsigned = True
+            for c in ast.iter_child_nodes(n):
+                rec(c, unsigned)
+
+        rec(e, False)
+        return roles
+
+    def literals(self, e, _depth=0):
+        """String literals that are part of the text an appended expression renders (through locals)."""
+        out = set()
+        for n in ast.walk(e):
+            if isinstance(n, ast.Constant) and isinstance(n.value, str) and not (n is e):
+                out.add(n.value)
+            elif isinstance(n, ast.Name) and n.id in self.local_values and _depth < 4:
+                for v in self.local_values[n.id]:
+                    if isinstance(v, ast.Constant) and isinstance(v.value, str):
+                        out.add(v.value)
+                    else:
+                        out |= self.literals(v, _depth + 1)
+        return out
 
     def append(self, node, e, states):
         self.n_appends += 1
         kind = self.classify(e)
+        roles = self._roles(e) if kind in ("start", "suffix") else set()
+        if not any(n is node for n, _, _ in self.append_exprs):
+            self.append_exprs.append((node, e, roles))
+        if roles & {"exp", "uexp"}:
+            for lp in self._loop_stack:
+                self.loop_renders_exp[id(lp)] = True
         out = set()
+        self.append_states.setdefault(id(node), set()).update(x for x in states if x is not None)
         for s in states:
             if s is None:
                 raise AnalysisError("string builder: append before the accumulator is initialised (line %d)" % node.lineno)
@@ -272,8 +384,12 @@ class Builder:
                     self.event("wrong-side", node, s)
                 if s.sign == NEG and s.region == NUM:
                     self.event("wrong-side", node, s)
+                if s.sign == NEG and "exp" in roles:
+                    self.event("signed-exponent", node, s)
                 out.add(s.with_(last=FACTOR))
             elif kind == "suffix":
+                if s.sign == NEG and "exp" in roles:
+                    self.event("signed-exponent", node, s)
                 if s.last != FACTOR:
                     self.event("suffix-without-factor", node, s)
                 out.add(s.with_(last=FACTOR))
